@@ -26,7 +26,7 @@ func PropertyIDs() []string {
 func Property(id string) *PropSpec { return props[id] }
 
 func init() {
-	props["C01"] = &PropSpec{ID: "C01", Engines: []string{"EDGE"}, Rules: []string{"EDGE"},
+	props["C01"] = &PropSpec{ID: "C01", Engines: []string{"EDGE", "WALK", "SHARED"}, Rules: []string{"EDGE", "WALK", "ORDER", "OUTMAP", "ARGPOP", "SIBLING", "FAB", "HASH", "IMMUT"},
 		Explanation: "wip"}
 	props["C03"] = &PropSpec{ID: "C03", Engines: []string{"PRIO", "EDGE"}, Rules: []string{"PRIO-N", "PRIO-T", "PRIO-W", "PRIO-P", "PRIO-D", "INPUT", "EDGE-V"},
 		Explanation: "wip"}
@@ -35,6 +35,8 @@ func init() {
 	props["C07"] = &PropSpec{ID: "C07", Engines: []string{"PRIO"}, Rules: []string{"PRIO-W", "PRIO-D", "PRIO-P"},
 		Explanation: "wip"}
 	props["C04"] = &PropSpec{ID: "C04", Engines: []string{"ERRFLOW"}, Rules: []string{"ERRFLOW"},
+		Explanation: "wip"}
+	props["C08"] = &PropSpec{ID: "C08", Engines: []string{"REDEF", "EXEC", "SHARED", "WALK"}, Rules: []string{"REDEF", "EXEC-X2", "EXEC-X3", "EXEC-X4", "EXEC-X6", "SHARED-C", "FAB"},
 		Explanation: "wip"}
 	props["C09"] = &PropSpec{ID: "C09", Engines: []string{"EXEC", "SHARED"}, Rules: []string{"EXEC", "SHARED", "ALIAS"},
 		Explanation: "wip"}
